@@ -33,6 +33,30 @@ fn handle(req: &Value) -> Value {
             let (cl, cr) = h::file_lines::query(v, us(&req["line"]), us(&req["lo"]), us(&req["hi"]));
             json!({"contains_line": cl, "contains_range": cr})
         }
+        "format_lines_scan" => {
+            let mut config = rustfmt_nightly::Config::default();
+            if let Some(v) = req["max_width"].as_u64() {
+                config.set().max_width(v as usize);
+            }
+            if let Some(v) = req["tab_spaces"].as_u64() {
+                config.set().tab_spaces(v as usize);
+            }
+            if let Some(v) = req["error_on_unformatted"].as_bool() {
+                config.set().error_on_unformatted(v);
+            }
+            if let Some(v) = req["error_on_line_overflow"].as_bool() {
+                config.set().error_on_line_overflow(v);
+            }
+            if let Some(js) = req["file_lines"].as_str() {
+                config.set().file_lines(js.parse().expect("file_lines json"));
+            }
+            let skipped = if req["skipped"].is_null() { vec![] } else { pairs(&req["skipped"]) };
+            let (events, errors, state) =
+                h::formatting::format_lines_scan(req["text"].as_str().unwrap_or(""), &config, &skipped);
+            json!({"events": events.iter().map(|(c, k)| json!([c, k])).collect::<Vec<_>>(),
+                   "errors": errors.iter().map(|e| json!([e.0, e.1, e.2, e.3, e.4, e.5])).collect::<Vec<_>>(),
+                   "state": [state.0, state.1, state.2]})
+        }
         _ => json!({"error": format!("unknown op {op}")}),
     }
 }
